@@ -8,15 +8,33 @@ pub struct VArray {
 
 pub struct SubscriptOutOfRangeError;
 
+/// The array has more elements than can be counted.
+pub struct OutOfMemoryError;
+
 impl VArray {
+    /// Creates an array with every element set to the given value.
+    ///
+    /// Panics if the array has more elements than can be counted;
+    /// `try_new` reports that as an error.
     pub fn new(dimensions: Vec<(i32, i32)>, default_variant: Variant) -> Self {
-        let len = dimensions_to_array_length(&dimensions);
+        match Self::try_new(dimensions, default_variant) {
+            Ok(v_array) => v_array,
+            Err(_) => panic!("Array too big"),
+        }
+    }
+
+    /// Creates an array with every element set to the given value.
+    pub fn try_new(
+        dimensions: Vec<(i32, i32)>,
+        default_variant: Variant,
+    ) -> Result<Self, OutOfMemoryError> {
+        let len = dimensions_to_array_length(&dimensions).ok_or(OutOfMemoryError)?;
         debug_assert!(len > 0);
         let elements: Vec<Variant> = (0..len).map(|_| default_variant.clone()).collect();
-        Self {
+        Ok(Self {
             dimensions,
             elements,
-        }
+        })
     }
 
     pub fn get_element(&self, indices: &[i32]) -> Result<&Variant, SubscriptOutOfRangeError> {
@@ -88,10 +106,12 @@ impl VArray {
 }
 
 /// Calculates the number of elements in a multi-dimensional array.
-fn dimensions_to_array_length(dimensions: &[(i32, i32)]) -> usize {
+/// Returns `None` if the number does not fit in `usize`.
+fn dimensions_to_array_length(dimensions: &[(i32, i32)]) -> Option<usize> {
     let mut len: usize = 1;
     for (lbound, ubound) in dimensions {
-        len *= (*ubound - *lbound + 1) as usize;
+        let dimension_len = usize::try_from(i64::from(*ubound) - i64::from(*lbound) + 1).ok()?;
+        len = len.checked_mul(dimension_len)?;
     }
-    len
+    Some(len)
 }
